@@ -470,14 +470,6 @@ func (h *harness) reportAPI(c *Case, what string) {
 		h.reportOracle(c, w)
 		return
 	}
-	if rootHidden(c.Spec, c.F) {
-		// F-13f seen through the application layer only (e.g. the cost rule's error differs)
-		cc := *c
-		if classify(&cc, strings.SplitN(what, ": ", 2)[1]) != "" {
-			h.run.Count("known-finding:" + keyGatedRoot)
-			return
-		}
-	}
 	c.Via = "api"
 	h.run.Violate("property", what, classify(c, what), false, c)
 }
